@@ -110,9 +110,11 @@ theorem round_without_fills (ops : PriceOps P) (m m' : Market P)
 
 /-- While the market is not running its market price does not move, whatever happens: a
 submission, a cancel, a (refused or empty) round, and a clock step carries it over. -/
-theorem not_running_frozen (ops : PriceOps P) (m : Market P) (hnr : m.running = false) (o : Op P) :
+theorem not_running_frozen (ops : PriceOps P) (m : Market P) (hnr : m.running = false) (o : Op P)
+    (hnj : ∀ k f, o ≠ .jump k f) :
     (m.step ops o).1.cur.market = m.cur.market := by
   cases o with
+  | jump k f => exact absurd rfl (hnj k f)
   | add r =>
     have := (after_submission ops m r).2.1
     simp only [Market.step]
@@ -136,6 +138,12 @@ theorem not_running_frozen (ops : PriceOps P) (m : Market P) (hnr : m.running = 
         · rw [hnr] at h0; cases h0
   | tick f => simp [Market.step, Market.tick, hnr, marketRule]
   | setRunning b => rfl
+
+/-- … and an explicit clock jump (`_set_time`) carries the most recent recorded market price -/
+theorem jump_frozen (ops : PriceOps P) (m : Market P) (hnr : m.running = false) (k : Nat) (f : Option P)
+    (p : P) (hp : m.cur.market = some p) :
+    (m.step ops (.jump k f)).1.cur.market = m.cur.market := by
+  simp [Market.step, Market.setTime, hnr, carryOf, List.findSome?_cons, hp]
 
 /-- A clock step carries last-trade and mid price into the new slot, applies the market-price rule
 to the carried values, records the fundamental price, and starts the step statistics at zero. -/
